@@ -1,0 +1,233 @@
+//go:build verif
+
+package process
+
+// Verification hooks (build tag verif). A harness installs a sink; with no sink
+// installed every hook is a no-op. None of this is compiled without the tag.
+
+const (
+	VhSend    = 1 // blocked sending on ch
+	VhRecv    = 2 // blocked receiving on ch
+	VhSendCtl = 3 // NP: select {recv own ctrl (cch) | send on ch}
+	VhRecvCtl = 4 // NP: select {recv own ctrl (cch) | recv on ch}
+	VhFwdCtl  = 5 // NP forward: select {recv own ctrl (cch) | send on other ctrl (cch2)}
+)
+
+type VerifSinkT interface {
+	Spawn(re *RuntimeEnvironment, p *Process)
+	Step(re *RuntimeEnvironment, p *Process)
+	Idle(re *RuntimeEnvironment, p *Process)
+	Block(re *RuntimeEnvironment, p *Process, kind int, ch chan Message, cch chan ControlMessage, cch2 chan ControlMessage)
+	Unblock(re *RuntimeEnvironment, p *Process, arm int)
+	CtlRecv(re *RuntimeEnvironment, p *Process, cch chan ControlMessage)
+	Recv(re *RuntimeEnvironment, p *Process, m *Message)
+	Print(re *RuntimeEnvironment, p *Process, label string)
+}
+
+// VerifSink must be set before any process is spawned and not changed while processes run.
+var VerifSink VerifSinkT
+
+// VerifTcSinkT observes the typechecker's worker goroutine.
+type VerifTcSinkT interface {
+	TcBegin(env *GlobalEnvironment)
+	TcStep(env *GlobalEnvironment)
+	TcEnd(env *GlobalEnvironment)
+}
+
+var VerifTcSink VerifTcSinkT
+
+func vhSpawn(re *RuntimeEnvironment, p *Process) {
+	if VerifSink != nil {
+		VerifSink.Spawn(re, p)
+	}
+}
+func vhStep(re *RuntimeEnvironment, p *Process) {
+	if VerifSink != nil {
+		VerifSink.Step(re, p)
+	}
+}
+func vhIdle(re *RuntimeEnvironment, p *Process) {
+	if VerifSink != nil {
+		VerifSink.Idle(re, p)
+	}
+}
+func vhBlock(re *RuntimeEnvironment, p *Process, kind int, ch chan Message, cch chan ControlMessage, cch2 chan ControlMessage) {
+	if VerifSink != nil {
+		VerifSink.Block(re, p, kind, ch, cch, cch2)
+	}
+}
+func vhUnblock(re *RuntimeEnvironment, p *Process, arm int) {
+	if VerifSink != nil {
+		VerifSink.Unblock(re, p, arm)
+	}
+}
+func vhCtlRecv(re *RuntimeEnvironment, p *Process, cch chan ControlMessage) {
+	if VerifSink != nil {
+		VerifSink.CtlRecv(re, p, cch)
+	}
+}
+func vhRecv(re *RuntimeEnvironment, p *Process, m *Message) {
+	if VerifSink != nil {
+		VerifSink.Recv(re, p, m)
+	}
+}
+func vhPrint(re *RuntimeEnvironment, p *Process, label string) {
+	if VerifSink != nil {
+		VerifSink.Print(re, p, label)
+	}
+}
+func vhTcBegin(env *GlobalEnvironment) {
+	if VerifTcSink != nil {
+		VerifTcSink.TcBegin(env)
+	}
+}
+func vhTcStep(env *GlobalEnvironment) {
+	if VerifTcSink != nil {
+		VerifTcSink.TcStep(env)
+	}
+}
+func vhTcEnd(env *GlobalEnvironment) {
+	if VerifTcSink != nil {
+		VerifTcSink.TcEnd(env)
+	}
+}
+
+// Read-only views of unexported state, for the harness.
+
+func (re *RuntimeEnvironment) VerifCtxDone() bool {
+	select {
+	case <-re.ctx.Done():
+		return true
+	default:
+		return false
+	}
+}
+
+// VerifBodyKind names the form a process is currently at.
+func (p *Process) VerifBodyKind() string { return VerifFormKind(p.Body) }
+
+func VerifFormKind(f Form) string {
+	switch x := f.(type) {
+	case *SendForm:
+		return "send"
+	case *ReceiveForm:
+		return "recv"
+	case *SelectForm:
+		return "sel"
+	case *CaseForm:
+		return "case"
+	case *BranchForm:
+		return "branch"
+	case *NewForm:
+		return "new"
+	case *CloseForm:
+		return "close"
+	case *ForwardForm:
+		if x.to_drop {
+			return "dropfwd"
+		}
+		return "fwd"
+	case *SplitForm:
+		return "split"
+	case *CallForm:
+		return "call"
+	case *WaitForm:
+		return "wait"
+	case *CastForm:
+		return "cast"
+	case *ShiftForm:
+		return "shift"
+	case *DropForm:
+		return "drop"
+	case *PrintForm:
+		return "print"
+	}
+	return "?"
+}
+
+// VerifNode is a structural dump of a Form (identifiers, self flags, explicit
+// polarities, labels, shape), used to compare terms without going through String().
+type VerifNode struct {
+	Kind  string
+	Names []VerifName
+	Label string
+	Fn    string
+	Kids  []*VerifNode
+}
+
+type VerifName struct {
+	Ident  string
+	IsSelf bool
+	Pol    int // 0 = none, otherwise the types.Polarity value
+	Type   string
+}
+
+func verifName(n Name) VerifName {
+	v := VerifName{Ident: n.Ident, IsSelf: n.IsSelf}
+	if n.ExplicitPolarity != nil {
+		v.Pol = int(*n.ExplicitPolarity)
+	}
+	if n.Type != nil {
+		v.Type = n.Type.StringWithModality()
+	}
+	return v
+}
+
+func VerifDumpForm(f Form) *VerifNode {
+	if f == nil {
+		return nil
+	}
+	n := &VerifNode{Kind: VerifFormKind(f)}
+	nm := func(xs ...Name) {
+		for _, x := range xs {
+			n.Names = append(n.Names, verifName(x))
+		}
+	}
+	switch x := f.(type) {
+	case *SendForm:
+		nm(x.to_c, x.payload_c, x.continuation_c)
+	case *ReceiveForm:
+		nm(x.payload_c, x.continuation_c, x.from_c)
+		n.Kids = []*VerifNode{VerifDumpForm(x.continuation_e)}
+	case *SelectForm:
+		nm(x.to_c, x.continuation_c)
+		n.Label = x.label.L
+	case *CaseForm:
+		nm(x.from_c)
+		for _, b := range x.branches {
+			n.Kids = append(n.Kids, VerifDumpForm(b))
+		}
+	case *BranchForm:
+		nm(x.payload_c)
+		n.Label = x.label.L
+		n.Kids = []*VerifNode{VerifDumpForm(x.continuation_e)}
+	case *NewForm:
+		nm(x.new_name_c)
+		n.Kids = []*VerifNode{VerifDumpForm(x.body), VerifDumpForm(x.continuation_e)}
+	case *CloseForm:
+		nm(x.from_c)
+	case *ForwardForm:
+		nm(x.to_c, x.from_c)
+	case *SplitForm:
+		nm(x.channel_one, x.channel_two, x.from_c)
+		n.Kids = []*VerifNode{VerifDumpForm(x.continuation_e)}
+	case *CallForm:
+		nm(x.parameters...)
+		n.Fn = x.functionName
+	case *WaitForm:
+		nm(x.to_c)
+		n.Kids = []*VerifNode{VerifDumpForm(x.continuation_e)}
+	case *CastForm:
+		nm(x.to_c, x.continuation_c)
+	case *ShiftForm:
+		nm(x.continuation_c, x.from_c)
+		n.Kids = []*VerifNode{VerifDumpForm(x.continuation_e)}
+	case *DropForm:
+		nm(x.client_c)
+		n.Kids = []*VerifNode{VerifDumpForm(x.continuation_e)}
+	case *PrintForm:
+		n.Label = x.label.L
+		n.Kids = []*VerifNode{VerifDumpForm(x.continuation_e)}
+	}
+	return n
+}
